@@ -1,5 +1,6 @@
 CONSTANTS
   MaxDev = 0
+  MinBrace = FALSE
   Mutate = FALSE
   Globals = "all"
 INIT Init
